@@ -16,6 +16,36 @@ CLAIMED = {
         "DESIGN.md §6 C13"),
 }
 
+DR_NOTE = ("Trusted: Lean kernel; axioms propext/Classical.choice/Quot.sound; the correspondence harness (harness/dr_world.py + this property's module) "
+           "which builds REAL components and runs the real engine; component bodies deterministic and reading only declared dependencies; "
+           "steps atomic at component granularity.")
+CLAIMED.update({
+    "C01": (
+        "Lean 4 theorems over a hand-written model of dr.run_components / toposort (invariants by induction over the order; toposort soundness for every tie-break) + differential correspondence on real components",
+        "Proof: toposort_sound (any iteration order of the emitted sets: no item twice, every dependency strictly earlier), fuel irrelevance, attempt_once, "
+        "deps_attempted_first, seed_preserved, fired_is_order, run_once_after_deps are Lean theorems over IV.Dr for every World, seed broker and pick; "
+        "the model is tied to the code by evaluating generated worlds of real components with the real engine (own order + forced linear extensions) "
+        "and comparing instances, missing reports, exception log, attempts and observer firings with the model on every run.",
+        DR_NOTE, "DESIGN.md §6 C01"),
+    "C02": (
+        "Lean 4 theorems: the firing decision and the missing report stated outright (iff), argument positions; differential correspondence on real components of every type",
+        "Proof: fires_iff, missing_exact, process_cases, not_fired_no_value, disabled_silent, args_bind, deps_order, parser_binding over IV.Dr; tie as C01 plus an oracle that "
+        "recomputes firing / report / bound arguments from the generated declaration. Datasource and parser bindings are the specialised ones their types document.",
+        DR_NOTE, "DESIGN.md §6 C02"),
+    "C03": (
+        "Lean 4 theorems: locality of step (entry = function of the instances it reads), uniqueness along any valid order, attribution of every log entry; differential correspondence with dense fault injection",
+        "Proof: isolation, unrelated_faults_invisible, accounting_targets (every log entry targets its causing component or its registry points), skip_attribution(+_element), "
+        "accounting_complete_partial with the full statement AccountingComplete refuted by accounting_witness (known finding lonely-datasource), parser_fault_recorded, element_fault_recorded. "
+        "Partial: failing observers and unhashable exception objects live outside the model state (injected / witnessed by the harness).",
+        DR_NOTE, "DESIGN.md §6 C03"),
+    "C04": (
+        "Lean 4 theorems: uniqueness of the solution of the local equations => order independence; every toposort tie-break and every interleaving of independent sub-graph orders is a valid order; differential correspondence + schedule comparison on the real engine",
+        "Proof: order_independent, toposort_valid, run_pick_independent, merge_valid, run_modes_agree over IV.Dr. The implementation is additionally run under dr.run, forced extensions, "
+        "run_incremental, interleavings, deferring and real thread pools, insights._run(parallel) and child interpreters with other PYTHONHASHSEEDs, all compared. "
+        "Partial: sub-step interleavings inside CPython (GIL) cannot be exhibited by the model; get_subgraphs' partition is checked by the oracle, its Lean theorem is not yet part of the model.",
+        DR_NOTE, "DESIGN.md §6 C04"),
+})
+
 PENDING_REASON = "check not built yet in this round (planned: DESIGN.md §6); no claim is made until its model, theorems and correspondence run exist"
 
 
